@@ -1908,3 +1908,129 @@ Proof.
       * split; [lia|]. intros [H|H]; [lia|]. apply CB in H. discriminate.
   - rewrite E. destruct ((slot_at i g =? t) || cause_b cfgs g0 gF i i); [right|left]; lia.
 Qed.
+
+(* ------------------------------------------------------------------ *)
+(* Termination: the fuel Z.to_nat (end - next) + 1 always suffices       *)
+(* ------------------------------------------------------------------ *)
+Section Termination.
+Variable cfgs : list ncfg.
+Variable beh : behaviour.
+
+(* error 9 (out of fuel) is raised by run_loop alone *)
+Lemma ne9_schedule_node i w g : g_err g <> 9 -> g_err (schedule_node i w g) <> 9.
+Proof.
+  intros H. unfold schedule_node. destruct (w <? g_now g); simpl; [lia|].
+  destruct (_ || _); simpl; auto.
+Qed.
+
+Lemma ne9_opt_schedule i q g : g_err g <> 9 -> g_err (opt_schedule i q g) <> 9.
+Proof. destruct q; simpl; auto. apply ne9_schedule_node. Qed.
+
+Lemma ne9_notify l : forall j src g, g_err g <> 9 -> g_err (notify_from l j src g) <> 9.
+Proof.
+  induction l as [|c r IH]; intros j src g H; simpl; auto.
+  apply IH. destruct (_ && _); auto. apply ne9_schedule_node; auto.
+Qed.
+
+Lemma ne9_do_op i st opi o g : g_err g <> 9 -> g_err (do_op cfgs i st opi o g) <> 9.
+Proof.
+  intros H. unfold do_op. destruct (negb (g_err g =? 0)); auto. cbn zeta.
+  destruct o.
+  - destruct (c_sched _); auto. destruct (schedule _ _ _ _ _) as [s' q]. simpl. apply ne9_opt_schedule. exact H.
+  - destruct (c_sched _); auto.
+  - destruct (c_sched _); auto.
+  - destruct (c_sched _); auto. destruct (pop_tag _ _ _) as [s' w]. exact H.
+  - destruct (c_sched _); auto.
+  - destruct (_ && _); auto. simpl. apply ne9_notify. exact H.
+  - apply ne9_schedule_node; auto.
+  - simpl. lia.
+  - exact H.
+  - exact H.
+  - exact H.
+Qed.
+
+Lemma ne9_do_ops i st os : forall opi g, g_err g <> 9 -> g_err (do_ops cfgs i st opi os g) <> 9.
+Proof. induction os as [|o r IH]; intros opi g H; simpl; auto. apply IH, ne9_do_op; auto. Qed.
+
+Lemma ne9_eval_node i g : g_err g <> 9 -> g_err (eval_node cfgs beh i g) <> 9.
+Proof.
+  intros H. unfold eval_node. destruct (negb (n_started (node_at i g))); auto. cbn zeta.
+  match goal with |- context [if negb (g_err ?x =? 0) then _ else _] => set (g1 := x) end.
+  assert (H1 : g_err g1 <> 9).
+  { unfold g1. destruct (match c_ins (nth i cfgs dflt_cfg) with [] => true | _ => ready (nth i cfgs dflt_cfg) g end); auto.
+    apply ne9_do_ops. exact H. }
+  destruct (negb (g_err g1 =? 0)); auto.
+  destruct (c_sched (nth i cfgs dflt_cfg)); auto. simpl andb.
+  destruct (is_scheduled_now (g_now g) (n_sch (node_at i g))).
+  - destruct (advance (g_now g) (n_sch (node_at i g1))) as [s' q]. apply ne9_opt_schedule. exact H1.
+  - destruct (is_scheduled (n_sch (node_at i g1))); auto. apply ne9_schedule_node; auto.
+Qed.
+
+Lemma ne9_scan m : forall i g, g_err g <> 9 -> g_err (scan cfgs beh i m g) <> 9.
+Proof.
+  induction m as [|m IH]; intros i g H; simpl; auto.
+  destruct (negb (g_err g =? 0)); auto. apply IH.
+  destruct (slot_at i g =? g_now g).
+  - apply ne9_eval_node. exact H.
+  - destruct (g_now g <? slot_at i g); auto. destruct (slot_at i g <? g_nst g); auto.
+Qed.
+
+Lemma ne9_evaluate_graph t g : g_err g <> 9 -> g_err (evaluate_graph cfgs beh t g) <> 9.
+Proof. intros H. unfold evaluate_graph. apply ne9_scan. exact H. Qed.
+
+Lemma ne9_start_node i g : g_err g <> 9 -> g_err (start_node cfgs beh i g) <> 9.
+Proof.
+  intros H. unfold start_node. destruct (negb (g_err g =? 0)); auto. cbn zeta.
+  match goal with |- context [do_ops cfgs i false 0 ?o ?ga] => set (ops := o); set (gA := ga) end.
+  assert (HA : g_err gA <> 9) by exact H.
+  assert (H1 : g_err (do_ops cfgs i false 0 ops gA) <> 9) by (apply ne9_do_ops; exact HA).
+  destruct (negb (g_err (do_ops cfgs i false 0 ops gA) =? 0)); auto.
+  destruct (c_sos (nth i cfgs dflt_cfg)); [apply ne9_schedule_node|]; exact H1.
+Qed.
+
+Lemma ne9_start_nodes m : forall i g, g_err g <> 9 -> g_err (start_nodes cfgs beh i m g) <> 9.
+Proof. induction m as [|m IH]; intros i g H; simpl; auto. apply IH, ne9_start_node; auto. Qed.
+
+Lemma ne9_start_graph start : g_err (start_graph cfgs beh start) <> 9.
+Proof.
+  unfold start_graph. set (g0 := mkG _ _ _ _ _ _).
+  assert (H : g_err (start_nodes cfgs beh 0 (length cfgs) g0) <> 9) by (apply ne9_start_nodes; simpl; lia).
+  destruct (negb (g_err _ =? 0)); auto.
+Qed.
+
+(* With the boundary invariant the cached next time strictly increases from cycle to cycle, so a
+   run needs at most (end - next) cycles: given that much fuel (plus one) it never runs out. *)
+Lemma run_loop_fuel_suffices end_ fuel : forall g,
+  well_ranked cfgs -> end_ <= MAX_DT -> boundary cfgs g -> g_err g = 0 ->
+  (Z.to_nat (end_ - g_nst g) < fuel)%nat ->
+  g_err (run_loop cfgs beh end_ fuel g) <> 9.
+Proof.
+  induction fuel as [|f IH]; intros g WR HE B He Hf; [lia|]. simpl.
+  rewrite He. simpl.
+  destruct ((g_nst g =? MAX_DT) || (end_ <=? g_nst g)) eqn:Estop; [lia|].
+  set (g' := evaluate_graph cfgs beh (g_nst g) g).
+  assert (N9 : g_err g' <> 9) by (apply ne9_evaluate_graph; lia).
+  destruct (Z.eq_dec (g_err g') 0) as [E0|E0].
+  - assert (Hmax : g_nst g < MAX_DT) by lia.
+    destruct (evaluate_graph_boundary cfgs beh g WR B He Hmax E0) as (B' & Hnow & Hgt). fold g' in B', Hnow, Hgt.
+    apply IH; auto. lia.
+  - destruct f; simpl; [|replace (negb (g_err g' =? 0)) with true by lia; exact N9].
+    (* no fuel left but the state already carries a user error: run_loop reports 9 only when called with fuel 0 *)
+    exfalso. lia.
+Qed.
+
+Theorem sim_run_terminates start end_ :
+  well_ranked cfgs -> start_ops_ok beh start -> start <= MAX_DT -> end_ <= MAX_DT ->
+  g_err (run_sim cfgs beh start end_ (Z.to_nat (end_ - start) + 1)) <> 9.
+Proof.
+  intros WR SO Hs He. unfold run_sim.
+  set (g0 := start_graph cfgs beh start).
+  destruct (Z.eq_dec (g_err g0) 0) as [E0|E0].
+  - destruct (start_graph_boundary cfgs beh start SO Hs E0) as (B0 & Hnow & Hnst). fold g0 in B0, Hnow, Hnst.
+    apply run_loop_fuel_suffices; auto. lia.
+  - assert (N9 : g_err g0 <> 9).
+    { apply ne9_start_graph. }
+    replace (Z.to_nat (end_ - start) + 1)%nat with (S (Z.to_nat (end_ - start))) by lia. simpl.
+    replace (negb (g_err g0 =? 0)) with true by lia. exact N9.
+Qed.
+End Termination.
